@@ -20,7 +20,74 @@ const (
 	PairInv         = "b=1/a"
 	PairMontNear    = "b~ = a~ with a small limb-level edit (Montgomery domain)"
 	PairEqual       = "b=a"
+	PairQuotient    = "Montgomery quotient digits of a~*b~ are hostile limbs"
+	PairSqQuotient  = "Montgomery quotient digits of a~*a~ are hostile limbs (b=a)"
 )
+
+// MontQuotientOperand solves for the Montgomery-domain operand b~ such that
+// the quotient Q = a~*b~*(-m^-1) mod 2^256 of the Montgomery reduction -- whose
+// 64-bit limbs are exactly the per-round quotient digits q_0..q_3 of every
+// word-serial (separate or interleaved) Montgomery multiplication -- is a drawn
+// pattern of hostile limbs (0, 1, 2^63, 2^64-1, ...).  A hand-written
+// multiplication or squaring that special-cases, or mishandles a borrow or
+// carry for, one value of a quotient digit is wrong exactly there, and that
+// digit is a pseudo-random function of the operands: about 2^-64 per digit
+// for unsteered inputs.  With am == nil the square case a~*a~ is solved (2-adic
+// square root); ok is false when no operand below m exists for the drawn
+// pattern.
+func MontQuotientOperand(t *rapid.T, m, am *big.Int, label string) (*big.Int, bool) {
+	var q [4]uint64
+	for i := range q {
+		q[i] = Limb(t, label+"_q")
+	}
+	if rapid.Bool().Draw(t, label+"_onehostile") { // usually only one digit is special, the others ordinary
+		keep := rapid.IntRange(0, 3).Draw(t, label+"_qkeep")
+		for i := range q {
+			if i != keep {
+				q[i] = rapid.Uint64().Draw(t, label+"_qr")
+			}
+		}
+	}
+	mask := new(big.Int).Sub(two256, one)
+	negM := new(big.Int).Sub(two256, m)
+	if am != nil {
+		if am.Bit(0) == 0 {
+			return nil, false
+		}
+		// a~*b~ = -Q*m (mod 2^256)
+		tgt := new(big.Int).Mul(ref.FromLimbs(q), negM)
+		tgt.And(tgt, mask)
+		bm := tgt.Mul(tgt, new(big.Int).ModInverse(am, two256))
+		bm.And(bm, mask)
+		return bm, bm.Cmp(m) < 0
+	}
+	// square: a~^2 = -Q*m (mod 2^256) has an (odd) solution iff -Q*m = 1 (mod 8), i.e. Q = -m (mod 8)
+	q[0] = q[0]&^7 | negM.Uint64()&7
+	tgt := new(big.Int).Mul(ref.FromLimbs(q), negM)
+	tgt.And(tgt, mask)
+	x := big.NewInt(1)
+	for k := uint(3); k < 256; k++ { // x^2 = tgt (mod 2^k) holds; lift to 2^(k+1)
+		d := new(big.Int).Mul(x, x)
+		d.Sub(d, tgt)
+		if d.Bit(int(k)) != 0 {
+			x.Add(x, new(big.Int).Lsh(one, k-1))
+		}
+	}
+	x.And(x, mask)
+	if chk := new(big.Int).Mul(x, x); chk.And(chk, mask).Cmp(tgt) != 0 {
+		panic("gen.MontQuotientOperand: 2-adic square root failed")
+	}
+	switch rapid.IntRange(0, 3).Draw(t, label+"_root") { // the four roots +-x, +-x + 2^255
+	case 1:
+		x.Sub(two256, x)
+	case 2:
+		x.Xor(x, new(big.Int).Lsh(one, 255))
+	case 3:
+		x.Sub(two256, x)
+		x.Xor(x, new(big.Int).Lsh(one, 255))
+	}
+	return x, x.Cmp(m) < 0
+}
 
 // windowResidue draws r~ in [0, 2^256 - m): small, maximal or random.
 func windowResidue(t *rapid.T, m *big.Int, label string) *big.Int {
@@ -49,7 +116,7 @@ func Pair(t *rapid.T, m *big.Int, label string) (a, b *big.Int, kind string) {
 	a = Int256(t, m, label+"_a")
 	kind = Sampled([]string{
 		PairIndependent, PairIndependent, PairSumWindow, PairNear, PairProdWindow,
-		PairSquareWin, PairBitFlip, PairNeg, PairInv, PairEqual, PairMontNear, PairMontNear,
+		PairSquareWin, PairBitFlip, PairNeg, PairInv, PairEqual, PairMontNear, PairMontNear, PairQuotient, PairQuotient, PairSqQuotient,
 	}).Draw(t, label+"_kind")
 	am := ref.ToM(a, m)
 	switch kind {
@@ -131,6 +198,21 @@ func Pair(t *rapid.T, m *big.Int, label string) (a, b *big.Int, kind string) {
 			kind = PairBitFlip
 			b = new(big.Int).Xor(a, one)
 			b.Mod(b, m)
+		}
+	case PairQuotient:
+		if bm, ok := MontQuotientOperand(t, m, am, label+"_mq"); ok {
+			b = ref.FromM(bm, m)
+		} else {
+			kind = PairIndependent
+			b = Int256(t, m, label+"_b")
+		}
+	case PairSqQuotient:
+		if sq, ok := MontQuotientOperand(t, m, nil, label+"_msq"); ok {
+			a = ref.FromM(sq, m)
+			b = new(big.Int).Set(a)
+		} else {
+			kind = PairEqual
+			b = new(big.Int).Set(a)
 		}
 	case PairNeg:
 		b = ref.NegM(a, m)
